@@ -82,6 +82,19 @@ enum ExpressionContext {
     UnaryOrBinary,
 }
 
+#[cfg(feature = "verif")]
+fn verif_context_id(context: ExpressionContext) -> u32 {
+    match context {
+        ExpressionContext::Standard => 0,
+        ExpressionContext::Prefix => 1,
+        #[cfg(feature = "luau")]
+        ExpressionContext::TypeAssertion => 2,
+        ExpressionContext::BinaryLHS => 3,
+        ExpressionContext::BinaryLHSExponent => 4,
+        ExpressionContext::UnaryOrBinary => 5,
+    }
+}
+
 pub fn format_binop(ctx: &Context, binop: &BinOp, shape: Shape) -> BinOp {
     fmt_op!(ctx, BinOp, binop, shape, {
         And = " and ",
@@ -193,6 +206,8 @@ fn format_expression_internal(
     context: ExpressionContext,
     shape: Shape,
 ) -> Expression {
+    #[cfg(feature = "verif")]
+    crate::verif::tick();
     match expression {
         Expression::Function(anonymous_function) => {
             Expression::Function(format_anonymous_function(ctx, anonymous_function, shape))
@@ -250,6 +265,12 @@ fn format_expression_internal(
             // Examine whether the internal expression requires parentheses
             // If not, just format and return the internal expression. Otherwise, format the parentheses
             let use_internal_expression = check_excess_parentheses(expression, context);
+            #[cfg(feature = "verif")]
+            crate::verif::event(
+                "paren.flat",
+                verif_context_id(context),
+                (use_internal_expression && !keep_parentheses) as u32,
+            );
 
             // If the context is for a prefix, we should always keep the parentheses, as they are always required
             if use_internal_expression && !keep_parentheses {
@@ -1156,6 +1177,8 @@ fn hang_binop_expression(
             let should_hang = same_op_level
                 || over_column_width
                 || binop_expression_contains_comments(&full_expression, &binop);
+            #[cfg(feature = "verif")]
+            crate::verif::event("hangbinop.should_hang", should_hang as u32, same_op_level as u32);
 
             // Only use the indented shape if we are planning to hang
             let shape = if should_hang { test_shape } else { shape };
@@ -1298,6 +1321,8 @@ fn format_hanging_expression_(
     expression_context: ExpressionContext,
     lhs_range: Option<LeftmostRangeHang>,
 ) -> Expression {
+    #[cfg(feature = "verif")]
+    crate::verif::tick();
     let expression_range = expression.to_range();
 
     match expression {
@@ -1350,6 +1375,12 @@ fn format_hanging_expression_(
             // Examine whether the internal expression requires parentheses
             // If not, just format and return the internal expression. Otherwise, format the parentheses
             let use_internal_expression = check_excess_parentheses(expression, expression_context);
+            #[cfg(feature = "verif")]
+            crate::verif::event(
+                "paren.hang",
+                verif_context_id(expression_context),
+                (use_internal_expression && !keep_parentheses) as u32,
+            );
 
             // If the context is for a prefix, we should always keep the parentheses, as they are always required
             if use_internal_expression && !keep_parentheses {
@@ -1458,6 +1489,8 @@ fn format_hanging_expression_(
                 || lhs.has_trailing_comments(CommentSearch::All)
                 || (shape.take_last_line(&lhs) + format!("{binop}{rhs}").len()).over_budget()
             {
+                #[cfg(feature = "verif")]
+                crate::verif::event("binop.hang_top", 1, 0);
                 let hanging_shape = shape.reset() + strip_trivia(binop).to_string().len() + 1;
                 new_binop = hang_binop(ctx, binop.to_owned(), shape, rhs);
                 new_rhs = hang_binop_expression(
